@@ -383,3 +383,40 @@ def caller_fns(facts, target):
             c = c[:c.rindex("::{closure#")]
         out.add(c)
     return out
+
+
+def struct_field_value(facts, agg, field):
+    """The value a struct literal gives to `field`, also when the field now lives in a grouping sub-struct that the
+    fact loader flattens (core.compute_embeds): descend through the group's literal.  None if it cannot be read."""
+    agg = look(agg)
+    if agg[0] != "agg" or agg[1] not in facts.adts:
+        return None
+    names = [f["name"] for f in facts.struct_fields(agg[1])]
+    if field in names:
+        return agg[3][names.index(field)]
+    for (P, g), S in facts.embeds.items():
+        if P != agg[1] or g not in names:
+            continue
+        for (S2, f2), (P2, role) in facts.aliases.items():
+            if S2 == S and role == field:
+                sub = look(agg[3][names.index(g)])
+                if sub[0] == "agg" and sub[1] == S:
+                    snames = [f["name"] for f in facts.struct_fields(S)]
+                    return sub[3][snames.index(f2)]
+    return None
+
+
+def frozen_field_type(facts, adt, field):
+    """Type record of `adt.field`, also when the field lives in a grouping sub-struct today."""
+    for f in facts.struct_fields(adt):
+        if f["name"] == field:
+            return f["ty"]
+    for (P, g), S in facts.embeds.items():
+        if P != adt:
+            continue
+        for (S2, f2), (P2, role) in facts.aliases.items():
+            if S2 == S and role == field:
+                for f in facts.struct_fields(S):
+                    if f["name"] == f2:
+                        return f["ty"]
+    return None
